@@ -294,6 +294,11 @@ func entryPoints() []entryPoint {
 		{name: "Move", run: func(ctx context.Context, fs filesystem.FS, e *env) error {
 			return fs.MoveWithContext(ctx, tree(e), filepath.Join(e.root, "moved"))
 		}},
+		// a move onto a directory that exists already: the tree is merged into it entry by entry (so is a move the backend cannot do by renaming)
+		{name: "Move/merge", prep: func(fs filesystem.FS, e *env) error { return fs.MkDir(filepath.Join(e.root, "merged", "already-there")) },
+			run: func(ctx context.Context, fs filesystem.FS, e *env) error {
+				return fs.MoveWithContext(ctx, tree(e), filepath.Join(e.root, "merged"))
+			}},
 		{name: "Remove", run: func(ctx context.Context, fs filesystem.FS, e *env) error { return fs.RemoveWithContext(ctx, tree(e)) }},
 		{name: "CleanDir", run: func(ctx context.Context, fs filesystem.FS, e *env) error { return fs.CleanDirWithContext(ctx, tree(e)) }},
 		{name: "ChmodRecursively", run: func(ctx context.Context, fs filesystem.FS, e *env) error {
